@@ -113,6 +113,18 @@ ViolatedMain(t, c, i) ==
 \* the same rule for a cell of a running-sum/product column; every cell of the Lagrange kernel column is determined
 ViolatedAux(t, j, i) == IF t.lag = 1 /\ j = AuxW(t) - 1 THEN TRUE ELSE <<j, i>> \in AuxAssertedCells(t) \/ i <= N(t) - t.k
 
+\* ---- layout of the serialized proof: number of field elements / digests of each component (Wire.tla names) ------------
+\* u = number of unique query positions
+Layout(t, u) == [ood_trace_elems  |-> 2 * (t.width + NAux(t)),               \* current and next row; the Lagrange column has its own frame
+                 ood_lag_elems    |-> t.lag * (t.ln + 1),
+                 ood_eval_elems   |-> NumCompositionCols(t),
+                 commit_digests   |-> 1 + (IF AuxW(t) > 0 THEN 1 ELSE 0) + 1 + NumFriLayers(t) + 1,
+                 remainder_elems  |-> RemainderDomain(t) \div B(t),
+                 tq1_elems        |-> u * t.width,                            \* base field elements
+                 tq2_elems        |-> u * AuxW(t),                            \* extension field elements
+                 cq_elems         |-> u * NumCompositionCols(t),
+                 fri_layers       |-> NumFriLayers(t)]
+
 \* ---- what the quantifier of C01 admits -----------------------------------------------------------------
 Admissible(t) ==
     /\ OptionsAccepted(t)
